@@ -805,9 +805,13 @@ func (e *SpecEnv) call(n SCall) (Term, error) {
 		}
 		return Term{S: t.S, Sort: "Str", T: types.Typ[types.String]}, nil
 	}
-	sf, ok := vc.eng.DB.SpecFuncs[n.Fun]
-	if !ok {
-		return Term{}, fmt.Errorf("unknown spec function %q", n.Fun)
+	fromPkg := ""
+	if e.pkg != nil {
+		fromPkg = e.pkg.Path()
+	}
+	sf, lerr := vc.eng.DB.LookupSpec(n.Fun, fromPkg)
+	if lerr != nil {
+		return Term{}, lerr
 	}
 	if len(n.Args) != len(sf.Params) {
 		return Term{}, fmt.Errorf("spec %s: %d args, want %d", n.Fun, len(n.Args), len(sf.Params))
@@ -870,6 +874,9 @@ func (e *SpecEnv) call(n SCall) (Term, error) {
 		return t, nil
 	}
 	fname := "spec_" + n.Fun
+	if len(vc.eng.DB.SpecByName[n.Fun]) > 1 {
+		fname = "spec_" + mangle(shortKey(sf.Pkg)) + "_" + n.Fun
+	}
 	vc.declare(fmt.Sprintf("(declare-fun %s (%s) %s)", fname, strings.Join(sorts, " "), rs), fname)
 	var as []string
 	for i := range args {
